@@ -6,8 +6,12 @@ import (
 
 // block generates a block in a new scope. top: the main chunk's block.
 func (g *gen) block(top bool) []Stmt {
-	g.push()
-	defer g.pop()
+	if !top {
+		// (the top block is rendered without delimiters: its locals, shadowing
+		// ones included, are still in scope for the chunk's final return)
+		g.push()
+		defer g.pop()
+	}
 	var out []Stmt
 	n := 1 + g.n(6, "block-len")
 	if top {
